@@ -82,6 +82,15 @@ Expect(S, X, q, ns, hs, nid) ==
                   r == Lookup(S, p, q.name, k)
               IN IF r.ok THEN WithRef(r, r.ret.id, ns) ELSE Host(r)
     [] o = "forget" -> IF q.n > 0 /\ HasRef(S, q.n) THEN Host(Succ(Close(S, q.n), NoRet)) ELSE NoSlot(S)
+    \* the root is never forgotten: FORGET / BATCH_FORGET naming it have no effect whatever the count; the other items
+    \* of a BATCH_FORGET each drop the one reference their slot stands for
+    [] o = "forget_root" -> Host(Succ(S, NoRet))
+    [] o = "batch_forget" ->
+         LET keys == {q.items[k][1] : k \in DOMAIN q.items} \ {0} IN
+         Host(Succ(Gc([S EXCEPT !.of = Restrict(S.of, DOMAIN S.of \ keys)]), NoRet))
+    \* DESTROY + INIT on the same object: the session is over (every reference and handle of the client is gone), the
+    \* export and the configured switches (X, sealing) stay as configured
+    [] o = "remount" -> Host(Succ(Gc([S EXCEPT !.of = Restrict(S.of, DOMAIN S.of \cap {0})]), NoRet))
     [] o = "getattr" ->
          IF ~HasRef(S, q.n) \/ (q.h >= 0 /\ ~HasHandle(S, q.h)) THEN NoSlot(S)
          ELSE Host(Stat(S, IF q.h >= 0 THEN IdOf(S, HKey(q.h)) ELSE IdOf(S, q.n)))
@@ -131,6 +140,7 @@ Expect(S, X, q, ns, hs, nid) ==
     [] o \in {"fsync", "fsyncdir"} -> WithIo(S, q, {}, LAMBDA s, k : Fsync(s, k))
     [] o = "lseek" -> IF ~HasHandle(S, q.h) \/ ~HasRef(S, q.n) THEN NoSlot(S)
                       ELSE IF q.wh \notin {"SET", "CUR", "END"} THEN Free(S)
+                      ELSE IF S.ino[IdOf(S, HKey(q.h))].t # "reg" THEN Free(S)      \* directory offsets are file-system specific
                       ELSE Host(Lseek(S, HKey(q.h), q.off, q.wh))
     [] o = "setattr" ->
          IF ~HasRef(S, q.n) \/ (q.h >= 0 /\ ~HasHandle(S, q.h)) THEN NoSlot(S)
